@@ -114,7 +114,7 @@ class StandardizePlugin(PrimitiveLeafPlugin):
         params = dict(getattr(eqn, "params", {}) or {})
         axis_param = params.get("axis", None)
         epsilon = float(params.get("epsilon", 0.0))
-        if not np.isclose(epsilon, 0.0):
+        if epsilon != 0.0:
             raise NotImplementedError(
                 "jax.nn.standardize lowering supports epsilon == 0 only"
             )
@@ -194,7 +194,7 @@ class StandardizePlugin(PrimitiveLeafPlugin):
                         epsilon=epsilon,
                         where=where,
                     )
-                if not np.isclose(eps, 0.0):
+                if eps != 0.0:
                     return orig(
                         x,
                         axis=axis,
